@@ -8,7 +8,7 @@ CONFIG = dict(
           "prefix; seeded random long programs over a wide alphabet; every protocol's encoding of "
           "generated values; call-opcode x fate vocabulary matrix; one program per pickle opcode; the identical call repeated 2-3 times through every call opcode; "
           "special-cased callee names from builtins, a stdlib and a non-stdlib module; torch-saved pickles). "
-          "Every refusal is retried on the same object; the tracer and a hand-driven Interpreter are exercised as further decompile paths. "
+          "Every refusal is retried on the same object; accepted programs are (sampled) decompiled, injected into, decompiled again, three times over on one object; the tracer and a hand-driven Interpreter are exercised as further decompile paths. "
           "A case is one distinct byte string; non-trivial = the reference VM accepted it, its event "
           "log has >=1 import or call, and fickling decompiled it (so the inclusion oracle ran)."),
     assumptions=[
@@ -21,7 +21,7 @@ CONFIG = dict(
     min_nontrivial={"quick": 2000, "thorough": 50000},
     nshards={"quick": 16, "thorough": 16},
     timeout={"quick": 900, "thorough": 7200},
-    required_counters=("inclusion_checks",),
+    required_counters=("inclusion_checks", "composition_steps_checked"),
 )
 
 
@@ -38,6 +38,10 @@ def classify(o, ev, org):
     if ev[0] != "import":
         eev = refvm.erase_modules(ev)
         if any(refvm.erase_modules(d) == eev and d != ev for d in dec):
+            if not de.same_import_sequence(o):
+                return "call-on-wrong-module-and-import-sequence-differs", (
+                    "a call's callee/arguments resolve to another module's attribute, and the decompile does not perform "
+                    "the VM's imports one by one in the VM's order (an import was dropped or moved)")
             return "global-shadowed", ("the decompile refers to globals by bare name and the same attribute "
                                        "name is imported from two modules, so a call's callee/arguments "
                                        "resolve to the other module's attribute")
@@ -74,6 +78,9 @@ def oracle(ctx, label, data, o, names):
     if o.ref_ok and o.parse_err is None and (o.n_ref_calls or o.n_ref_imports) and (
             not o.fick_ok or not label.startswith(("exh", "rand")) or int(ch[:2], 16) % 4 == 0):
         other_decompile_paths(ctx, label, data, o, names)
+    if o.ref_ok and o.fick_ok and o.exec_err is None and not o.missing and (
+            not label.startswith(("exh", "rand")) or int(ch[:2], 16) % 8 == 1):
+        composition(ctx, label, data, o, names)
     if not (o.ref_ok and o.fick_ok):
         return
     if o.exec_err is not None:
@@ -136,6 +143,59 @@ def retry_after_refusal(ctx, label, data, o, names):
                       "decompilation first refused this pickle, then - asked again on the same object - returned a "
                       "program from which calls/imports of the VM are missing",
                       diffrun.witness(label, data, names, decompile=src[:600], missing_event=str(missing[0][0])[:200]))
+
+
+def _text_blind(x):
+    if isinstance(x, tuple):
+        if len(x) == 3 and x[0] == "k" and x[1] in ("str", "bytes") and isinstance(x[2], str):
+            return ("k", "text", x[2][1:] if x[1] == "bytes" and x[2][:1] == "b" else x[2])
+        return tuple(_text_blind(y) for y in x)
+    return x
+
+
+def composition(ctx, label, data, o, names):
+    """decompile -> inject -> decompile -> inject -> decompile on ONE object: after each edit the decompile of the
+    object must contain what the VM does for the object's current bytes (the injected calls included)."""
+    import ast
+    f = de.fickle()
+    agg = ctx.agg
+    try:
+        p = f.Pickled.load(data)
+        if not len(p) or p[-1].info.name != "STOP":
+            return
+        p.ast
+        steps = [lambda: p.insert_python("c1", module="vp_sink", attr="hit", run_first=True),
+                 lambda: p.insert_python("c2", 2, module="vp_other", attr="hit", run_first=False),
+                 lambda: p.append_python("c3", module="vp_sink", attr="ident", pop_result=True)]
+        for si, step in enumerate(steps):
+            step()
+            src = ast.unparse(p.ast)
+            p.properties
+            vm, err = refvm.run_ref(p.dumps())
+            if err is not None:
+                return
+            log, _val, _g = refvm.exec_decompiled(src)
+            # opcodes built by the helpers keep text arguments in encoded form until the pickle is re-parsed, so the
+            # decompile of an *edited* object shows b'c1' where the VM passes 'c1': text constants are compared by
+            # their characters here (what is looked for is a lost call / import, C14 owns view-vs-fresh equality)
+            vm.log.events = [_text_blind(e) for e in vm.log.events]
+            log.events = [_text_blind(e) for e in log.events]
+            missing = refvm.missing_events(vm.log, log)
+            agg.count("composition_steps_checked")
+            if missing and not de.scheme_name_collision(o):
+                ev = missing[0][0]
+                if ev[0] != "import" and any(refvm.erase_modules(d) == refvm.erase_modules(ev) and d != ev
+                                             for d in log.events if d[0] == ev[0]):
+                    continue        # the recorded bare-name shadowing (vp_sink.hit / vp_other.hit), not staleness
+                agg.violation("stale-decompile-after-edit",
+                              f"after injection #{si + 1} into an already decompiled object the decompile lacks an import/call "
+                              f"the VM performs for the object's current bytes",
+                              diffrun.witness(label, data, names, decompile=src[:600], missing_event=str(ev)[:300], step=si + 1))
+                return
+    except RecursionError:
+        return
+    except Exception as e:
+        agg.hist("composition_raised", type(e).__name__)
 
 
 def other_decompile_paths(ctx, label, data, o, names):
